@@ -167,7 +167,7 @@ class NuWiki:
                 self.revisions[meta["revid"]] = new_page
 
         tmp = list(self.revisions.items())
-        python2sort(tmp, reverse=True)
+        tmp = python2sort(tmp, reverse=True)
         for revid, page in tmp:
             title = page.title
             if title not in self.revisions:
